@@ -17,6 +17,14 @@ CHECKS = {
         note="value menus of 2-4 values per attribute; no model: each trace is an implementation trace; hidden-field hash makes state merging sound",
         design="DESIGN.md §2 C11",
     ),
+    "C20": dict(
+        level="exploration",
+        technique="exhaustive enumeration of small finite input spaces (full Cartesian products) on the real functions, oracle by algebraic identities",
+        text="Full products: naturals/check_dm for n=1..12 x 11 spectra (incl. values straddling the acceptance boundary) x 3 overlaps x eps/occ_max settings; volume for all "
+        "1-3 vector subsets x orders x signs; all index quadruples n<=4 (quick) / n<=6 (thorough); all letter-case variants and single-character edits of the strtobool vocabulary.",
+        note="numeric menus only (6 vectors, 3 overlap kinds); algebraic identities are the oracle (no scipy in the check)",
+        design="DESIGN.md §2 C20",
+    ),
 }
 
 ALL = [f"C{i:02d}" for i in range(1, 21)]
